@@ -357,7 +357,67 @@ def job_check(kind, case, rec):
         rec.close("job.y=sum-of-boundary-forces", float(np.abs(np.asarray(job.y[-1]) - ref).max()) / max(float(np.abs(ref).max()), 1e-12), 1e-8)
 
 
+def ramp_strategy(kind, tier):
+    return st.fixed_dictionaries({"n": st.lists(st.integers(2, 3), min_size=3, max_size=3), "seed": st.integers(0, 2**16), "mu": fl(0.5, 2),
+                                  "ramp": st_ramp(6 if tier == "quick" else 10), "r0": st.sampled_from([0.0, 0.4, 1.3])})
+
+
+def ramp_check(kind, case, rec):
+    """items whose values are ramped by a Step (Step calls item.update(value_i) in the i-th substep): the load assembled for
+    the converged i-th substep is the load of the i-th ramp value (with every flag / scale the item was created with)"""
+    fem = import_felupe()
+    axi = kind.endswith("axi")
+    rng = np.random.default_rng(case["seed"])
+    if axi:
+        mesh = fem.Rectangle(a=(0.0, case["r0"]), b=(1.0, case["r0"] + 0.8), n=tuple(k + 1 for k in case["n"][:2]))
+        region = fem.RegionQuad(mesh)
+        fc = fem.FieldContainer([fem.FieldAxisymmetric(region, dim=2)])
+        dim = 2
+    else:
+        mesh = fem.Cube(b=(1.0, 0.8, 0.6), n=tuple(case["n"]))
+        region = fem.RegionHexahedron(mesh)
+        fc = fem.FieldContainer([fem.Field(region, dim=3)])
+        dim = 3
+    X = np.array(mesh.points)
+    body = fem.SolidBody(fem.NeoHooke(mu=case["mu"], bulk=5.0), fc)
+    bounds = {"fix": fem.Boundary(fc[0], fx=0.0)}
+    right = np.where(np.isclose(X[:, 0], X[:, 0].max()))[0]
+    pts = np.sort(rng.choice(right, size=min(3, len(right)), replace=False))
+    amp = 0.05
+    ramp = [amp * v for v in case["ramp"]]
+    direction = rng.uniform(-1, 1, (len(pts), dim))
+    if kind.startswith("pointload"):
+        item = fem.PointLoad(fc, points=pts, values=0.0 * direction, axisymmetric=axi)
+        table = np.array([v * direction for v in ramp])
+    else:
+        dens = 1.7
+        item = fem.SolidBodyGravity(fc, gravity=[0.0] * 3, density=dens)
+        g = np.zeros(3)
+        g[:dim] = rng.uniform(-1, 1, dim)
+        table = np.array([v * g for v in ramp])
+    step = fem.Step(items=[body, item], ramp={item: table}, boundaries=bounds)
+    rec.nontrivial = len(ramp) >= 2
+    n = 0
+    try:
+        for i, res in enumerate(step.generate(tol=1e-9)):
+            n += 1
+            f = np.asarray(item.assemble.vector(res.x).toarray()).reshape(-1, dim)
+            if kind.startswith("pointload"):
+                ref = np.zeros_like(f)
+                ref[pts] = table[i] * (2 * np.pi * X[pts, 1:2] if axi else 1.0)
+                rec.close("load-of-substep-i=load-of-ramp-value-i", float(np.abs(f - ref).max()), 1e-13 * max(1.0, float(np.abs(ref).max())), {"substep": i})
+            else:
+                V = float(region.dV.sum())
+                ref = dens * table[i][:dim] * V
+                rec.close("load-of-substep-i=load-of-ramp-value-i", float(np.abs(f.sum(0) - ref).max()), 1e-12 * max(1.0, float(np.abs(ref).max())), {"substep": i})
+    except ValueError:
+        rec.label("natural-failure")
+        return
+    rec.require("yield-count", n == len(ramp), [n, len(ramp)])
+
+
 FAMILIES = [
+    Family("ramped-items", ["pointload", "pointload-axi", "gravity"], ramp_check, strategy=ramp_strategy, n={"quick": 6, "thorough": 150}, chunk=3),
     Family("history", CLASSES, check, strategy=strategy, n={"quick": 8, "thorough": 200}, chunk=4, weight=4),
     Family("job", ["job", "curve"], job_check, strategy=job_strategy, n={"quick": 10, "thorough": 200}, chunk=5, weight=2),
 ]
